@@ -38,6 +38,32 @@ def main():
                 fails += 1
                 lab = 'destroyObject.dtor_walk.derived_before_base' if sorted(got) == sorted(want) else 'destroyObject.dtor_walk.every_declared_destructor_of_the_chain_runs_once'
                 print('FAIL label=%s program=%s detail=depth %d destructors declared %s: printed %s, expected %s' % (lab, json.dumps(src), depth, list(has), got, want))
+    # ---- a block closes its scope on every path: after a callee returns from inside a nested block, nothing of the callee stays visible
+    blk = [('function clamp(int n, int limit) -> int { int x = 7; if (n > limit) { return limit; } return n; }\n'
+            'function main() -> void { int x = 50; int n = 1; int limit = 2; int r = clamp(5, 3); echo(x); echo(n); echo(limit); echo(r); }\n', ['50', '1', '2', '3']),
+           ('function f(int a) -> int { int t = a * 2; while (true) { { return t; } } return 0; }\n'
+            'function main() -> void { int t = 9; int a = 4; int r = f(10); echo(t); echo(a); echo(r); }\n', ['9', '4', '20']),
+           ('class K { public constructor() -> K = default; public function g(int v) -> int { int w = v + 1; if (v > 0) { if (v > 1) { return w; } } return 0; } }\n'
+            'function main() -> void { K k = new K(); int v = 100; int w = 200; int r = k.g(5); echo(v); echo(w); echo(r); }\n', ['100', '200', '6'])]
+    for src, want in blk:
+        rc, out = run(bloch, src); n += 1
+        got = [l.strip() for l in out.strip().split('\n') if l.strip()]
+        if rc != 0 or got != want:
+            fails += 1
+            print('FAIL label=exec.block.scope_closed_on_every_path program=%s detail=after a return from inside a nested block the caller sees the callee\'s variables: printed %s, expected %s' % (json.dumps(src), got, want))
+    # ---- which method runs for obj.m(...): the override of the receiver's dynamic class; super.m() the base version
+    H3 = ('class Shape { public constructor() -> Shape = default; public virtual function name() -> string { return "Shape"; } public function describe() -> string { return "I am " + this.name(); } public function plain() -> string { return "plainShape"; } }\n'
+          'class Circle extends Shape { public constructor() -> Circle = default; public override function name() -> string { return "Circle"; } public function viaSuper() -> string { return super.plain(); } }\n'
+          'class Ring extends Shape { public constructor() -> Ring = default; public override function name() -> string { return "Ring"; } }\n')
+    disp = [(H3 + 'function main() -> void { Shape s = new Shape(); echo(s.name()); s = new Circle(); echo(s.name()); echo(s.describe()); s = new Ring(); echo(s.name()); echo(s.describe()); }\n', ['Shape', 'Circle', 'I am Circle', 'Ring', 'I am Ring'], 'eval.member_call.virtual_call_runs_override_of_dynamic_class'),
+            (H3 + 'function main() -> void { Shape c = new Ring(); echo(c.describe()); Shape t = new Circle(); echo(t.describe()); echo(t.plain()); }\n', ['I am Ring', 'I am Circle', 'plainShape'], 'eval.member_call.virtual_call_runs_override_of_dynamic_class'),
+            (H3 + 'function main() -> void { Circle c = new Circle(); echo(c.viaSuper()); }\n', ['plainShape'], 'eval.member_call.super_call_runs_the_base_version')]
+    for src, want, lab in disp:
+        rc, out = run(bloch, src); n += 1
+        got = [l.strip() for l in out.strip().split('\n') if l.strip()]
+        if rc != 0 or got != want:
+            fails += 1
+            print('FAIL label=%s program=%s detail=printed %s, expected %s' % (lab, json.dumps(src), got, want))
     print(json.dumps(dict(oracle_checks=n, oracle_failures=fails)))
     sys.exit(1 if fails else 0)
 main()
